@@ -242,6 +242,7 @@ def check(ctx):
     class OnlyDealloc(util.PrefixedCtx):
         def ob(self, rule, key, ok, site="", detail="", nontrivial=True, undecided=False):
             if rule == "R13.1" and "dealloc_id" in key: return super().ob(rule, key, ok, site, detail, nontrivial, undecided)
+            if rule == "R13.2" and "dealloc_ref" in key: return super().ob(rule, key, ok, site, detail, nontrivial, undecided)   # OgreUnique::drop releases by reference
             return ok
     C13.check(OnlyDealloc(ctx, "R14.6"))
     ctx.floor("R14.6", 2)
